@@ -7,6 +7,7 @@ import (
 	"go/types"
 	"sort"
 	"strings"
+	"sync/atomic"
 
 	"golang.org/x/tools/go/ssa"
 )
@@ -108,6 +109,7 @@ type State struct {
 	inlineDepth int
 	pendingAll bool
 	havocEpochBound Term // alloc counter at the last whole-heap havoc
+	unfolded map[string]bool // opaque spec applications whose defining equation is in the log
 	localMaps []localMap // maps made by this function whose reference never leaves it
 	compBound map[string]Term // per component: alloc counter when it was last written or havoc'd
 	pendingBound []string
@@ -161,6 +163,7 @@ func (st *State) clone() *State {
 		pendingBound: append([]string(nil), st.pendingBound...),
 		baseAlloc: st.baseAlloc,
 		localMaps: append([]localMap(nil), st.localMaps...),
+		unfolded: make(map[string]bool, len(st.unfolded)),
 		havocEpochBound: st.havocEpochBound,
 		lastRange: st.lastRange,
 	}
@@ -169,6 +172,9 @@ func (st *State) clone() *State {
 	}
 	for k, v := range st.compBound {
 		n.compBound[k] = v
+	}
+	for k, v := range st.unfolded {
+		n.unfolded[k] = v
 	}
 	for k, v := range st.env {
 		n.env[k] = v
@@ -238,6 +244,7 @@ type Exec struct {
 	pendingSelf *tv
 	constGlobals []string
 	usedAxioms map[string]bool
+	unfolded map[string]bool // opaque spec function applications whose defining equation was emitted
 	reified map[string]*Ptr // symbolic field addresses that were turned into reference terms
 }
 
@@ -619,11 +626,10 @@ func (ex *Exec) havocHeap(st *State) {
 	}
 }
 
-var epochCounter int
+var epochCounter int64
 
 func (ex *Exec) nextEpoch() int {
-	epochCounter++
-	return epochCounter
+	return int(atomic.AddInt64(&epochCounter, 1))
 }
 
 func (ex *Exec) bumpAlloc(st *State) {
